@@ -15,8 +15,16 @@ import (
 )
 
 // modelStep classifies one live message and updates M (held) / A (members with a valid message).
-func (e *env) modelStep(s sym, M, A map[int]bool, res *result) {
+// pending: s is an optional message that can be admitted now (sender not yet counted, threshold
+// not reached); A tentatively contains the sender, resolveOptional settles it from the implementation.
+func (e *env) modelStep(s sym, M, A map[int]bool, res *result) (pending bool) {
 	switch {
+	case s.Optional && (A[s.Sender] || len(M) >= e.k):
+		res.outcomes = append(res.outcomes, "optional:no-effect-possible")
+		res.refused++
+	case s.Optional:
+		A[s.Sender] = true
+		return true
 	case !s.Valid:
 		res.outcomes = append(res.outcomes, "reject:"+s.Class)
 		res.refused++
@@ -36,6 +44,28 @@ func (e *env) modelStep(s sym, M, A map[int]bool, res *result) {
 			res.outcomes = append(res.outcomes, "admit")
 		}
 	}
+	return false
+}
+
+// resolveOptional: after the implementation handled the optional message s, accept either
+// decision (everything else must still hold) and make the model follow it.
+func (e *env) resolveOptional(in *instance, part string, step int, s sym, M, A map[int]bool, res *result) *finding {
+	in.flexM, in.flexMust = true, copySet(M)
+	f := in.compare(part, step, s, M, A)
+	in.flexM, in.flexMust = false, nil
+	if f != nil {
+		return f
+	}
+	if in.flexPresent[s.Sender] {
+		M[s.Sender] = true
+		res.admitted++
+		res.outcomes = append(res.outcomes, "optional:admitted:"+s.Pattern)
+	} else {
+		delete(A, s.Sender)
+		res.refused++
+		res.outcomes = append(res.outcomes, "optional:ignored:"+s.Pattern)
+	}
+	return nil
 }
 
 func copySet(m map[int]bool) map[int]bool {
@@ -96,12 +126,16 @@ func (e *env) execPhased(parked, live []int, party bool) result {
 	seenWire := map[string]bool{}
 	var P []int // distinct members with a valid parked message
 	inP := map[int]bool{}
+	optP := map[int]bool{} // senders of parked optional messages
 	for step, si := range parked {
 		s := e.syms[si]
 		res.outcomes = append(res.outcomes, "park:"+s.Class)
 		if !seenWire[string(s.Wire)] && s.Valid && !inP[s.Sender] {
 			inP[s.Sender] = true
 			P = append(P, s.Sender)
+		}
+		if s.Optional {
+			optP[s.Sender] = true
 		}
 		seenWire[string(s.Wire)] = true
 		msg := s.message()
@@ -142,36 +176,54 @@ func (e *env) execPhased(parked, live []int, party bool) result {
 	if th := ra.v.VerifRoundThreshold(); th != e.k {
 		return fail(&finding{Sig: "C15:threshold", Part: "round", Msg: fmt.Sprintf("generator threshold %d, GetGroupK(%d)=%d", th, e.n, e.k)})
 	}
+	// the batch is replayed in map order and may contain optional messages: the held set may be any
+	// S within A = definite + optional senders, |S| >= min(k, definite), definite within S while |S| < k
 	M, A := map[int]bool{}, map[int]bool{}
+	must := map[int]bool{}
 	for _, m := range P {
+		A[m], must[m] = true, true
+	}
+	for m := range optP {
 		A[m] = true
 	}
-	flex := len(P) > e.k
-	if !flex {
-		for _, m := range P {
-			M[m] = true
-		}
-	}
-	res.admitted += min(len(P), e.k)
-	res.refused += len(parked) - min(len(P), e.k)
 	switch {
 	case len(P) >= e.k:
 		res.outcomes = append(res.outcomes, "start:recover")
 	case len(P) > 0:
 		res.outcomes = append(res.outcomes, "start:admit")
 	default:
-		res.outcomes = append(res.outcomes, "start:nothing-admissible")
+		res.outcomes = append(res.outcomes, "start:nothing-definitely-admissible")
 	}
-	ra.flexM = flex
-	f := ra.compare("round", step, startSym, M, A)
-	ra.flexM = false
+	settle := func(in *instance, part string) (map[int]bool, *finding) {
+		in.flexM, in.flexMust = true, must
+		f := in.compare(part, step, startSym, M, A)
+		in.flexM, in.flexMust = false, nil
+		if f != nil {
+			return nil, f
+		}
+		held := copySet(in.flexPresent)
+		// with the held set known, everything else (beacon set, CanProceed, recovered signatures)
+		return held, in.compare(part, step, startSym, held, A)
+	}
+	M, f := settle(ra, "round")
 	if f != nil {
 		f.Sig += ":parked"
 		return fail(f)
 	}
-	if flex {
-		M = copySet(ra.flexPresent)
+	for m := range optP {
+		if !must[m] {
+			if M[m] {
+				res.outcomes = append(res.outcomes, "optional:admitted-at-start")
+			} else {
+				res.outcomes = append(res.outcomes, "optional:ignored-at-start")
+				if len(M) < e.k {
+					delete(A, m)
+				}
+			}
+		}
 	}
+	res.admitted += len(M)
+	res.refused += len(parked) - min(len(M), len(parked))
 	Mp := M
 	attached := false
 	if pa != nil {
@@ -180,16 +232,12 @@ func (e *env) execPhased(parked, live []int, party bool) result {
 		} else {
 			attached = pa.v.VerifRoundAttach()
 			if attached {
-				pa.flexM = flex
-				f := pa.compare("party", step, startSym, M, A)
-				pa.flexM = false
+				held, f := settle(pa, "party")
 				if f != nil {
 					f.Sig += ":parked"
 					return fail(f)
 				}
-				if flex {
-					Mp = copySet(pa.flexPresent)
-				}
+				Mp = held
 			}
 			if f := e.partyOutcome(pa, step, startSym.Name, len(M)); f != nil {
 				f.Sig += ":parked"
@@ -214,10 +262,7 @@ func (e *env) execPhased(parked, live []int, party bool) result {
 		step := len(parked) + 1 + j
 		s := e.syms[si]
 		frozen := len(M) >= e.k
-		e.modelStep(s, M, A, &res)
-		if Mp != nil && !frozen && s.Valid { // same rule for the party instance's own held set
-			Mp[s.Sender] = true
-		}
+		pending := e.modelStep(s, M, A, &res)
 		msg := s.message()
 		var uerr error
 		if p, val, site := fw.Try(func() {
@@ -233,6 +278,14 @@ func (e *env) execPhased(parked, live []int, party bool) result {
 				Msg: fmt.Sprintf("round1.Update returned an error on live message %s: %v", s.Name, uerr)})
 		}
 		ra.delivered = append(ra.delivered, s)
+		if pending {
+			if f := e.resolveOptional(ra, "round", step, s, M, A, &res); f != nil {
+				return fail(f)
+			}
+		}
+		if !frozen && M[s.Sender] { // same decision for the party instance's own held set
+			Mp[s.Sender] = true
+		}
 		if f := ra.compare("round", step, s, M, A); f != nil {
 			return fail(f)
 		}
@@ -318,9 +371,10 @@ func (e *env) reportPhased(c *fw.Ctx, parked, live []int, party bool, f *finding
 // subset of the honest messages plus at most one other message of the full alphabet (every
 // Byzantine variant and every non-member message gets parked, alone and next to every
 // honest subset), the transition, and then a BFS over live messages (core alphabet of the
-// Byzantine set plus the parked extra message itself, so that the same message / the same
-// member arrives in both phases) to liveDepth, merging on the full implementation state.
-func (e *env) phased(c *fw.Ctx, idx *int64, byz []int, liveDepth int, party bool) {
+// Byzantine set — or, without coreLive, just the honest messages — plus the parked extra message
+// itself, so that the same message / the same member arrives in both phases) to liveDepth,
+// merging on the full implementation state.
+func (e *env) phased(c *fw.Ctx, idx *int64, byz []int, liveDepth int, party, coreLive bool) {
 	isB := map[int]bool{}
 	for _, b := range byz {
 		isB[b] = true
@@ -335,7 +389,7 @@ func (e *env) phased(c *fw.Ctx, idx *int64, byz []int, liveDepth int, party bool
 		} else {
 			extra = append(extra, i)
 		}
-		if s.Core {
+		if (coreLive && s.Core) || s.Class == clsHon {
 			liveAlpha = append(liveAlpha, i)
 		}
 	}
